@@ -68,6 +68,50 @@ func guardedRT(c *h.Ctx) {
 	}
 }
 
+// guardedNamedRT: a named type over a plain type, first occurrence: the guard of
+// zson_roundtrip_value_named_top_partial ⇒ the real round trip succeeds, in every mode that
+// starts from a fresh formatter.
+func guardedNamedRT(c *h.Ctx) {
+	m := c.Model()
+	n := c.N(400, 8000)
+	for i := 0; i < n; i++ {
+		g := &gen{r: c.Rng, plain: true, tame: true}
+		u, v := g.genCase(1 + c.Rng.Intn(3))
+		name := typeNames[c.Rng.Intn(11)]
+		if c.Rng.Intn(4) == 0 {
+			name = []string{"a b", "1a", "1.5", "a\"b", "é", "true", "nan", "a,b", "0x1f"}[c.Rng.Intn(9)]
+		}
+		t := named(name, u)
+		cs := &rtCase{Mode: []string{"value", "samectx", "record", "writer", "format"}[c.Rng.Intn(5)], Pretty: []int{0, 2, 4}[c.Rng.Intn(3)], Vals: []tv{{t, v}}}
+		zctx := zed.NewContext()
+		val, err := makeValue(zctx, t, v)
+		if err != nil {
+			continue
+		}
+		ans := m.Call("(C02 guardnamed (" + modelTy(val.Type()) + " " + modelVal(zctx, val.Type(), val.Bytes()) + "))")
+		c.Eval("guardednamed" + caseKey(cs))
+		c.Res.ModelCases++
+		if ans != "1" {
+			c.Stat("guardednamed:guard-false")
+			continue
+		}
+		if caseHazards(cs).any() {
+			c.Stat("guardednamed:skipped:text-hazard")
+			checkRT(c, cs, true)
+			continue
+		}
+		c.Stat("guardednamed:guard-holds")
+		res := runRT(cs)
+		if !res.ok {
+			kind := "oracle"
+			if res.panic {
+				kind = "panic"
+			}
+			c.Fail(kind, "C02:roundtrip:guarded-named-case-fails", fmt.Sprintf("the guard of zson_roundtrip_value_named_top_partial holds but the real round trip fails (%s: %s); text=%q", res.class, res.detail, clip(res.text, 300)), replayObj{Check: "oracle", RT: cs})
+		}
+	}
+}
+
 // ---- quote -------------------------------------------------------------------------------
 
 var quotePool = []string{
